@@ -1166,7 +1166,7 @@ Proof.
 Qed.
 
 Theorem valid_aquery_executes : forall q,
-  aquery_valid q = true -> search_blank q = false -> ref_filter_on_aggregate q = false -> aquery_outcome q = OOk.
+  aquery_valid q = true -> search_blank q = false -> value_filter_on_aggregate q = false -> aquery_outcome q = OOk.
 Proof.
   intros q Hv Hb Hr. unfold aquery_valid in Hv. unfold aquery_outcome.
   destruct (aquery_check q) as [vs|] eqn:Ec; [|discriminate].
@@ -1181,7 +1181,7 @@ Lemma aquery_never_panics : forall q, aquery_outcome q <> OPanic.
 Proof.
   intros q. unfold aquery_outcome. destruct (aquery_check q); [|discriminate].
   destruct (validate_params v (aq_params q)); [|discriminate].
-  destruct (search_blank q); [discriminate|]. destruct (ref_filter_on_aggregate q); discriminate.
+  destruct (search_blank q); [discriminate|]. destruct (value_filter_on_aggregate q); discriminate.
 Qed.
 
 Theorem delete_never_panics : forall p, delete_outcome p <> OPanic.
@@ -1516,8 +1516,13 @@ Definition w_ref_filter_agg : aquery :=  (* Person(pets = null) { total: count()
   {| aq_sel := [ASAgg ACount FString]; aq_search := None; aq_order := []; aq_first := None; aq_skip := None;
      aq_before := []; aq_after := []; aq_filters := [(KEntRef, true, ANull)]; aq_nullable := []; aq_params := [] |}.
 
+Definition w_alias_filter_agg : aquery :=  (* Person(order_by(a0 asc), a1 >= null) { a0: max(nat) a1: js->$.a ok } *)
+  {| aq_sel := [ASAgg AMax FString; ASJson; ASField FBool true]; aq_search := None; aq_order := [KSel 0]; aq_first := None; aq_skip := None;
+     aq_before := []; aq_after := []; aq_filters := [(KSel 1, false, ANull)]; aq_nullable := []; aq_params := [] |}.
+
 Lemma clause_witnesses_w :
   aquery_valid w_paged_agg = true /\ known_C14 (CAgg w_paged_agg) = [] /\ run_C14 (CAgg w_paged_agg) = [0; 1] /\
   emit_clauses w_paged_agg = [CCond; CGroup; CHaving; CCond; COrder] /\
-  aquery_valid w_ref_filter_agg = true /\ aquery_outcome w_ref_filter_agg = OErr /\ known_C14 (CAgg w_ref_filter_agg) = [8].
+  aquery_valid w_ref_filter_agg = true /\ aquery_outcome w_ref_filter_agg = OErr /\ known_C14 (CAgg w_ref_filter_agg) = [8] /\
+  aquery_valid w_alias_filter_agg = true /\ aquery_outcome w_alias_filter_agg = OErr /\ known_C14 (CAgg w_alias_filter_agg) = [8].
 Proof. vm_compute. repeat split; reflexivity. Qed.
